@@ -202,6 +202,25 @@ Proof. destruct k; reflexivity. Qed.
 Lemma bookkeeping_not_span k name : bookkeeping k name = false -> name <> "span".
 Proof. intros B ->. destruct k; discriminate B. Qed.
 
+Lemma bookkeeping_plain k name : bookkeeping k name = false -> (String.eqb name "span" || underscored name)%bool = false.
+Proof.
+  unfold bookkeeping. intros B. destruct (String.eqb name "span"); [discriminate B|].
+  destruct (String.eqb name "index"); [discriminate B|]. destruct (underscored name); [discriminate B|]. reflexivity.
+Qed.
+
+Lemma bookkeeping_cases k name : bookkeeping k name = true -> underscored name = false ->
+  name = "span" \/ name = "index" \/ name = "names" \/ name = "dtype" \/ name = "submodels" \/ name = "name".
+Proof.
+  unfold bookkeeping. intros B U. rewrite U in B.
+  destruct (String.eqb name "span") eqn:E1; [apply String.eqb_eq in E1; left; exact E1|].
+  destruct (String.eqb name "index") eqn:E2; [apply String.eqb_eq in E2; right; left; exact E2|].
+  destruct (String.eqb name "names") eqn:E3; [apply String.eqb_eq in E3; right; right; left; exact E3|].
+  destruct (String.eqb name "dtype") eqn:E4; [apply String.eqb_eq in E4; right; right; right; left; exact E4|].
+  destruct (String.eqb name "submodels") eqn:E5; [apply String.eqb_eq in E5; right; right; right; right; left; exact E5|].
+  destruct (String.eqb name "name") eqn:E6; [apply String.eqb_eq in E6; right; right; right; right; right; exact E6|].
+  destruct k; discriminate B.
+Qed.
+
 Section Facts.
   Variable pycast : dtype -> pyval -> outcome pyval.
   Variable arrcast : dtype -> dtype -> pyval -> outcome pyval.
@@ -1410,6 +1429,7 @@ Section NoOther.
     destruct dt as [r|].
     - pose proof (cast_all_no_other (arrcast d0 (astype_dt d0 cells0 r)) cells0 (HA d0 _)) as Cc.
       destruct (cast_all (arrcast d0 (astype_dt d0 cells0 r)) cells0) as [cs|e]; [|simpl; intros C; inversion C; subst; apply Cc; reflexivity].
+      destruct (adds_dim r); [simpl; discriminate|].
       destruct (negb (Nat.eqb m0 (n_of s))); simpl; discriminate.
     - destruct (negb (Nat.eqb m0 (n_of s))); simpl; discriminate.
   Qed.
@@ -1702,19 +1722,21 @@ Section DataLength.
     apply set_rows_arr_invD. exact D.
   Qed.
 
-  Lemma obj_setattr_invD name value s : name <> "span" -> wf_operand value -> InvD s -> InvD (fst (obj_setattr name value s)).
+  Lemma obj_setattr_invD name value s :
+    (String.eqb name "span" || underscored name)%bool = false -> wf_operand value -> InvD s -> InvD (fst (obj_setattr name value s)).
   Proof.
-    intros NS W D. unfold Container.obj_setattr.
-    destruct (bookkeeping (kind s) name).
-    { unfold Container.book_setattr. destruct (String.eqb name "span") eqn:E; [apply String.eqb_eq in E; contradiction|].
-      repeat dm; exact D. }
+    intros NS W D. apply orb_false_elim in NS. destruct NS as [E U]. unfold Container.obj_setattr.
+    destruct (bookkeeping (kind s) name) eqn:BK.
+    { destruct (bookkeeping_cases _ _ BK U) as [ -> | [ -> | [ -> | [ -> | [ -> | -> ] ] ] ] ]; [discriminate E| | | | |];
+        unfold Container.book_setattr; simpl; repeat dm; exact D. }
     destruct (String.eqb name "strict"); [destruct (truthy value); exact D|].
     destruct (String.eqb name "values"); [apply values_setter_invD; assumption|].
     destruct (String.eqb name "size" || String.eqb name "nbytes")%bool; [exact D|].
     match goal with |- context [if ?c then _ else _] => destruct c end; exact D.
   Qed.
 
-  Lemma add_attribute_invD name value s : name <> "span" -> wf_operand value -> InvD s -> InvD (fst (add_attribute name value s)).
+  Lemma add_attribute_invD name value s :
+    (String.eqb name "span" || underscored name)%bool = false -> wf_operand value -> InvD s -> InvD (fst (add_attribute name value s)).
   Proof.
     intros NS W D. unfold Container.add_attribute.
     destruct (mem name (index s)); [exact D|].
@@ -1724,7 +1746,8 @@ Section DataLength.
   Qed.
 
   Lemma setattr_invD name value hint s :
-    name <> "span" \/ mem name (index s) = true -> wf_operand value -> InvD s -> InvD (fst (setattr name value hint s)).
+    (String.eqb name "span" || underscored name)%bool = false \/ mem name (index s) = true ->
+    wf_operand value -> InvD s -> InvD (fst (setattr name value hint s)).
   Proof.
     intros NS W D. unfold Container.setattr.
     match goal with |- context [if ?c then _ else _] => destruct c end.
@@ -1790,6 +1813,7 @@ Section DataLength.
     clear F. pose proof (FIRST d0 m0 cells0 eq_refl) as F.
     destruct dt as [r|].
     - destruct (cast_all (arrcast d0 (astype_dt d0 cells0 r)) cells0) as [cs|e] eqn:C; [|exact D].
+      destruct (adds_dim r); [exact D|].
       destruct (negb (Nat.eqb m0 (n_of s))) eqn:G; [exact D|].
       apply negb_false_iff, Nat.eqb_eq in G. simpl.
       intros x v. simpl. destruct (string_dec x name) as [->|Ne].
@@ -1814,10 +1838,10 @@ Section DataLength.
   Proof.
     destruct o as [name v dt|name v hint|k v|kvs|name v|q]; simpl; intros SC W D.
     - apply add_variable_invD; assumption.
-    - apply setattr_invD; [left; eapply bookkeeping_not_span; exact SC|assumption|assumption].
+    - apply setattr_invD; [left; eapply bookkeeping_plain; exact SC|assumption|assumption].
     - apply setitem_invD; assumption.
     - apply replace_values_invD; assumption.
-    - apply add_attribute_invD; [eapply bookkeeping_not_span; exact SC|assumption|assumption].
+    - apply add_attribute_invD; [eapply bookkeeping_plain; exact SC|assumption|assumption].
     - rewrite read_frame. exact D.
   Qed.
 
@@ -1878,18 +1902,18 @@ Section DataLengthInit.
     InvD (fst (init_model k sp st d default NAMES ivs)).
   Proof.
     intros Wd Wi. unfold Container.init_model.
-    apply bind_invD; [apply add_attribute_invD; [discriminate|exact I|intros x v E; discriminate E]|]. intros s1 D1.
+    apply bind_invD; [apply add_attribute_invD; [reflexivity|exact I|intros x v E; discriminate E]|]. intros s1 D1.
     apply bind_invD; [apply base_add_variable_invD; [exact I|exact D1]|]. intros s2 D2.
     apply bind_invD; [apply base_add_variable_invD; [exact I|exact D2]|]. intros s3 D3.
     destruct (negb (dup_free NAMES)); [exact D3|].
     match goal with |- context [if ?c then _ else _] => destruct c end; [exact D3|].
-    apply bind_invD; [apply add_attribute_invD; [discriminate|apply wf_scalars|exact D3]|]. intros s4 D4.
+    apply bind_invD; [apply add_attribute_invD; [reflexivity|apply wf_scalars|exact D3]|]. intros s4 D4.
     apply bind_invD; [apply init_vars_invD; [exact Wd|exact Wi|exact D4]|]. intros s5 D5.
-    apply bind_invD; [apply add_attribute_invD; [discriminate|exact I|exact D5]|]. intros s6 D6.
-    apply bind_invD; [apply add_attribute_invD; [discriminate|exact I|exact D6]|]. intros s7 D7.
-    apply bind_invD; [apply add_attribute_invD; [discriminate|exact I|exact D7]|]. intros s8 D8.
-    apply bind_invD; [apply add_attribute_invD; [discriminate|exact I|exact D8]|]. intros s9 D9.
-    destruct k; [exact D9|apply add_attribute_invD; [discriminate|exact I|exact D9]|exact D9].
+    apply bind_invD; [apply add_attribute_invD; [reflexivity|exact I|exact D5]|]. intros s6 D6.
+    apply bind_invD; [apply add_attribute_invD; [reflexivity|exact I|exact D6]|]. intros s7 D7.
+    apply bind_invD; [apply add_attribute_invD; [reflexivity|exact I|exact D7]|]. intros s8 D8.
+    apply bind_invD; [apply add_attribute_invD; [reflexivity|exact I|exact D8]|]. intros s9 D9.
+    destruct k; [exact D9|apply add_attribute_invD; [reflexivity|exact I|exact D9]|exact D9].
   Qed.
 End DataLengthInit.
 
